@@ -8,6 +8,13 @@ variable / parameter / return type / typedef; contexts are global, inside a name
 using-declaration, via a namespace alias, inside a class with a shadowing nested type, default
 template arguments, elaborated type specifiers.
 
+Name lookup:  a second family (lib_c06lookup.py) declares one type name at every subset of the
+              sites {global, namespace of the bases, namespace of the user class, enclosing
+              class, first base, second base, the class itself} and uses the unqualified name in
+              a class with 0/1/2 bases (same / other namespace, nested or not) or at namespace
+              scope, as return type, parameter, method, data member and typedef; g++ decides
+              which declaration wins (cases it finds ambiguous are filtered and counted).
+
 Acceptance:   parse_file exits 0 and reports no error on every generated translation unit
               (errors are attributed to single declarations and confirmed in isolation), and
               on every file of parser-inc/ that g++ accepts stand-alone.
@@ -30,6 +37,7 @@ import shutil
 
 from vf import build, tools
 from vf import lib_c06 as L
+from vf import lib_c06lookup as K
 from vf.core import Check, HarnessError, pmap, run_main
 
 PID = "C06"
@@ -414,12 +422,12 @@ def make_probes(cases, printed, dump, oc_text):
     return probes
 
 
-def run_checker(d, probes):
+def run_checker(d, probes, prelude=None):
     """Ask g++ about every probe; sets probe.verdict:
        'same' | 'alt:<names>' | 'differs' | 'invalid: <g++ message>'."""
     live = [p for p in probes if p.verdict is None]
     for rnd in range(8):
-        src = CHK_PRELUDE.rstrip("\n").split("\n")
+        src = (prelude or CHK_PRELUDE).rstrip("\n").split("\n")
         mains = []
         linemap = {}
         for i, p in enumerate(live):
@@ -765,6 +773,258 @@ def classhead_single(ck, b, case):
     return "printed `%s D : %s` %s" % (k, lst, "same" if not wrong else "differs in " + ",".join(wrong))
 
 
+# ------------------------------------------------------------------------- name lookup
+class LEntity:
+    """One use of the homonym (case x role), with the interface run_checker expects."""
+    term = ("b", "int")
+
+    def __init__(self, case, role):
+        self.case, self.role = case, role
+        self.name = case.entity(role)
+
+    @property
+    def key(self):
+        return self.case.key + "/" + self.role
+
+    def path(self):
+        return self.case.path(self.role)
+
+    def entity_type(self):
+        if self.role == "typedef":
+            return self.path()
+        if self.role == "method":
+            return "decltype(&%s)" % self.path()
+        return "decltype(%s)" % self.path()
+
+    def expected(self, term=None):
+        return self.entity_type()       # g++ decides which declaration the name denotes
+
+    def decl(self):
+        return " ".join(self.case.render())
+
+
+LNAME = re.compile(r"\b(l[rpmdt])(\d+)\b")
+LOOKUP_PER_TU = 160
+
+
+def lookup_tu(b, d, cases):
+    """One TU of lookup cases.  Returns (cases, probes, filtered{case: reason})."""
+    os.makedirs(d, exist_ok=True)
+    for i, c in enumerate(cases):
+        c.i = i
+        c.reject = None
+
+    def header(active):
+        lines, where = [], {}
+        for c in active:
+            for l in c.render():
+                lines.append(l)
+                where[len(lines)] = c
+        return "\n".join(lines) + "\n", where
+
+    # 1. g++ decides which cases are well-formed (ambiguous / invisible names are dropped)
+    filtered = {}
+    active = list(cases)
+    for _ in range(8):
+        txt, where = header(active)
+        _w(os.path.join(d, "h.h"), txt)
+        g = tools.run(GXX + ["-fsyntax-only", "-x", "c++", "h.h"], cwd=d, timeout=300)
+        if g.rc == 0:
+            break
+        bad = {}
+        for m in re.finditer(r"^h\.h:(\d+):\d+: error: (.*)$", g.err, re.M):
+            c = where.get(int(m.group(1)))
+            if c is not None:
+                bad.setdefault(c, m.group(2))
+        if not bad:
+            raise HarnessError("g++ fails on the lookup header and nothing can be blamed: " + g.err[-1500:])
+        filtered.update(bad)
+        active = [c for c in active if c not in bad]
+    else:
+        raise HarnessError("lookup header still rejected by g++")
+    # 2. the parser must accept what g++ accepts
+    out = ""
+    for _ in range(len(active) + 2):
+        if not active:
+            break
+        txt, where = header(active)
+        _w(os.path.join(d, "h.h"), txt)
+        r = tools.parse_file(b, ["h.h"], cwd=d, timeout=300)
+        errs = [(int(m.group(1)), m.group(2)) for m in ERR_RE.finditer(r.err)]
+        if r.rc == 0 and not errs and not r.timeout:
+            out = r.out
+            break
+        blamed = [where[ln] for ln, _ in errs if ln in where][:1]
+        if not blamed:
+            raise HarnessError("parse_file fails on the lookup header, nothing to blame: " + r.err[-800:])
+        blamed[0].reject = [msg for ln, msg in errs if where.get(ln) is blamed[0]][0]
+        active = [c for c in active if c.reject is None]
+    probes = []
+    if not active:
+        return cases, probes, filtered
+    # 3. interrogate
+    for f in ("o.in", "o.cxx"):
+        if os.path.exists(os.path.join(d, f)):
+            os.unlink(os.path.join(d, f))
+    r = tools.interrogate(b, ["-promiscuous", "-c", "-nodb", "-od", "o.in", "-oc", "o.cxx",
+                              "-module", "m", "-library", "l", "h.h"], cwd=d, timeout=600)
+    dump = None
+    if r.rc != 0 or r.timeout or not os.path.exists(os.path.join(d, "o.in")):
+        if len(active) == 1:
+            active[0].reject = "interrogate: rc=%s %s" % (r.rc, r.err.strip()[-160:])
+            return cases, probes, filtered
+        mid = len(active) // 2
+        a = lookup_tu(b, d + "a", active[:mid])
+        bb = lookup_tu(b, d + "b", active[mid:])
+        return cases, a[1] + bb[1], filtered
+    dump = tools.idb_dump(b, [os.path.join(d, "o.in")], cwd=d)
+    funcs, elems, types = {}, {}, {}
+    for k, f in dump["functions"].items():
+        funcs[f["scoped_name"]] = f
+    for k, e in dump["elements"].items():
+        elems[e["scoped_name"]] = e
+    for k, t in dump["types"].items():
+        types.setdefault(t["scoped_name"], t)
+    printed = {}
+    for line in out.splitlines():
+        s = line.strip()
+        m = LNAME.search(s)
+        if m and not s.startswith(("namespace", "struct", "class")):
+            printed.setdefault(m.group(0), s)
+    for c in active:
+        for role in c.roles():
+            e = LEntity(c, role)
+            scoped = e.path()[2:]
+            # P: parse_file's re-printed member, re-declared where lookup has the same order
+            if role != "method":
+                text = printed.get(e.name)
+                if text is None:
+                    p = Probe(e, "P", None, None, None)
+                    p.verdict = "declaration missing from parse_file's output"
+                    probes.append(p)
+                else:
+                    body = rename(text, e.name, "chk_" + e.name)
+                    if role == "data" and not c.ctx.free:
+                        body = "static " + body
+                    setup, ref = c.chk_wrap(role, body)
+                    pt = ref if role == "typedef" else "decltype(%s)" % ref
+                    probes.append(Probe(e, "P", text, setup, pt,
+                                        expected=("decltype(%s)" % e.path()) if role == "data" else None,
+                                        norm=False))
+            # Dp: database prototype
+            if role in ("ret", "param", "method"):
+                f = funcs.get(scoped)
+                if f is None:
+                    if not c.ctx.free:      # namespace-scope functions are never scanned
+                        p = Probe(e, "Dp", None, None, None)
+                        p.verdict = "function missing from the database"
+                        probes.append(p)
+                else:
+                    proto = f["prototype"].strip().rstrip(";")
+                    proto = re.sub(r"^(static|inline|extern)\s+", "", proto)
+                    if proto.count(scoped + "(") == 1:
+                        if role == "method":
+                            cls = scoped.rsplit("::", 1)[0]
+                            ptr = proto.replace(scoped + "(", "(%s::*)(" % cls, 1)
+                        else:
+                            ptr = proto.replace(scoped + "(", "(*)(", 1)
+                        probes.append(Probe(e, "Dp", f["prototype"].strip(), None, ptr,
+                                            expected="decltype(&%s)" % e.path()))
+                    else:
+                        p = Probe(e, "Dp", f["prototype"].strip(), None, None)
+                        p.verdict = "prototype does not name the function"
+                        probes.append(p)
+            # Dt: database type of the data member / variable
+            if role == "data":
+                el = elems.get(scoped)
+                if el is not None:
+                    t = dump["types"].get(str(el["type"]))
+                    if t is not None:
+                        probes.append(Probe(e, "Dt", t["true_name"], None, t["true_name"], norm=True))
+                        if t["scoped_name"] != t["true_name"]:
+                            probes.append(Probe(e, "Ds", t["scoped_name"], None, t["scoped_name"], norm=True))
+            # Dtd: database entry of the member typedef
+            if role == "typedef":
+                t = types.get(scoped)
+                if t is not None and t["flags"] & 0x200000:
+                    w = dump["types"].get(str(t["wrapped_type"]))
+                    if w is not None:
+                        probes.append(Probe(e, "Dtd", w["true_name"], None, w["true_name"]))
+    if probes:
+        run_checker(d, probes, prelude=CHK_PRELUDE.replace("using McS = ::S;\n", ""))
+    return cases, probes, filtered
+
+
+def lookup_observed(c, probes):
+    """Observation string of one case: what deviates, names made anonymous."""
+    parts = []
+    if c.reject is not None:
+        parts.append("rejected: " + c.reject)
+    for p in probes:
+        if p.verdict != "same":
+            t = re.sub(r"(?<![A-Za-z])(H|nu|nb|Ba|Bb|Ou|U|l[rpmdt])\d+\b", r"\1", p.text or "")
+            parts.append("%s/%s `%s` %s" % (p.case.role, p.chan, t,
+                                            re.sub(r"\b(H|nu|nb|Ba|Bb|Ou|U)\d+\b", r"\1", p.verdict)))
+    return " ;; ".join(parts)
+
+
+def lookups(ck, b):
+    cases = K.enumerate_cases(ck.tier)
+    tus = [cases[i:i + LOOKUP_PER_TU] for i in range(0, len(cases), LOOKUP_PER_TU)]
+    cnt = itertools.count()
+
+    def one(tu):
+        d = ck.scratch("lk%d" % next(cnt))
+        res = lookup_tu(b, d, tu)
+        if not ck.keep:
+            for suf in ("", "a", "b", "aa", "ab", "ba", "bb"):
+                shutil.rmtree(d + suf, ignore_errors=True)
+        return res
+
+    def confirm(c, expect):
+        def f():
+            c2 = K.LCase(c.ctx, c.sites, c.kind)
+            d = ck.scratch("lkc%d" % next(cnt))
+            cs, probes, filt = lookup_tu(b, d, [c2])
+            shutil.rmtree(d, ignore_errors=True)
+            return c2 not in filt and lookup_observed(c2, probes) == expect
+        return f
+
+    filtered = {}
+    winners = {}
+    reported = 0
+    failing = 0
+    for tu_cases, probes, filt in pmap(one, tus):
+        byc = {}
+        for p in probes:
+            byc.setdefault(p.case.case, []).append(p)
+        for c in tu_cases:
+            if c in filt:
+                w = re.sub(r"'[^']*'", "'..'", filt[c])[:60]
+                filtered[w] = filtered.get(w, 0) + 1
+                continue
+            ps = byc.get(c, [])
+            obs = lookup_observed(c, ps)
+            ck.note(c.key, nontrivial=len(c.sites) >= 2 and len(ps) >= 5,
+                    outcome="lookup " + ("ok" if not obs else "DEVIATES") + " sites=%d" % len(c.sites),
+                    family="lookup/" + c.ctx.key(),
+                    sample={"header": c.render(),
+                            "printed": [(p.case.role, p.chan, p.text, p.verdict) for p in ps]})
+            if obs:
+                failing += 1
+                det = {"case": c.key, "header": c.render(), "observed": obs}
+                if ck._match_known(c.key, det) is not None:
+                    ck.fail(c.key, obs, det)
+                elif reported < 25:
+                    reported += 1
+                    ck.fail(c.key, obs, det, confirm=confirm(c, obs))
+    if failing > reported:
+        print("NOTE: %d failing lookup cases in total" % failing, flush=True)
+        ck.cap("%d failing lookup cases, the first %d were confirmed and reported" % (failing, reported))
+    ck.extra["lookup"] = {"cases": len(cases), "filtered_rejected_by_gxx": filtered,
+                          "failing": failing}
+
+
 # ------------------------------------------------------------------------- findings
 BUILTIN = {"int", "ulong", "char", "bool", "double"}
 
@@ -835,6 +1095,8 @@ def main():
         corpus(ck, b)
     if not ck.only or "classhead" in ck.only:
         classheads(ck, b)
+    if not ck.only or "lookup" in ck.only:
+        lookups(ck, b)
     cases = enumerate_cases(ck.tier) if (not ck.only or "grammar" in ck.only) else []
     tus = [cases[i:i + PER_TU] for i in range(0, len(cases), PER_TU)]
     counter = itertools.count()
@@ -968,6 +1230,17 @@ def replay(ck, b):
         print("parse_file rc=%s\n%s" % (r.rc, r.err[-1500:]))
         ck.cleanup()
         return 1 if (r.rc != 0 or "error:" in r.err) else 0
+    if k.startswith("lookup/"):
+        c = K.case_from_key(k)
+        cs, probes, filt = lookup_tu(b, ck.scratch("replay"), [c])
+        print("\n".join(c.render()))
+        if c in filt:
+            print("g++ rejects the case:", filt[c])
+        for p in probes:
+            print("  %-8s %-3s %-50s %s" % (p.case.role, p.chan, p.text, p.verdict))
+        obs = lookup_observed(c, probes)
+        ck.cleanup()
+        return 1 if obs else 0
     if k.startswith("classhead/"):
         for case in classhead_cases("thorough"):
             if classhead_key(case) == k:
